@@ -87,7 +87,7 @@ def sched_of(block):
     return m.group(1) if m else ""
 
 
-def tie_H(res, client, runs, hang_is_violation=True, label=None, exe=None, ignore_oracle=None, only_oracle=None):
+def tie_H(res, client, runs, hang_is_violation=True, label=None, exe=None, ignore_oracle=None, only_oracle=None, judged=True):
     """History conformance: run the real container under the deterministic scheduler, judge every
     history with the verified checker.  `runs` = list of dicts {args: [...], cases: n}."""
     exe = exe or vlib.build_client(client)
@@ -99,7 +99,7 @@ def tie_H(res, client, runs, hang_is_violation=True, label=None, exe=None, ignor
     for run in runs:
         args = ["--seed", str(res.seed)] + run["args"]
         text, aborted = vlib.run_cases(exe, args, run["cases"], timeout=run.get("timeout", 600))
-        verdicts = vlib.driver(["lincheck"], text)
+        verdicts = vlib.driver(["lincheck"], text) if judged else ""
         vmap = {}
         for line in verdicts.split("\n"):
             w = line.split()
@@ -131,7 +131,9 @@ def tie_H(res, client, runs, hang_is_violation=True, label=None, exe=None, ignor
                 xs = [x for x in xs if re.search(only_oracle, x)]
             if xs:
                 res.violation("%s:%s:oracle:%s" % (label, var, "-".join(xs[0].rstrip(":").split()[:2]).rstrip(":")), dict(replay, kind="oracle", oracle=xs))
-            if verdict == "NOTLIN":
+            if not judged:
+                pass        # oracle-only client (no abstract data type): X lines and hangs decide
+            elif verdict == "NOTLIN":
                 res.violation("%s:%s:not-linearizable" % (label, var), replay)
             elif verdict != "LIN":
                 res.violation("%s:%s:driver:%s" % (label, var, verdict), dict(replay, kind="driver-problem"), no_input=True)
